@@ -288,6 +288,27 @@ func TestDrawnNames(t *testing.T) {
 			}
 			s.Class("near-miss-requested")
 		}
+		// an origin registered AFTER the issuer has already evaluated requests is served like any other
+		late := mk("lateName", gen.UniformRange(t, 0, 70, "lateLen"))
+		if late != name && iss.OriginIndexKey(late) == nil {
+			if err := iss.AddOrigin(late); err != nil {
+				t.Fatalf("harness: %v", err)
+			}
+			reqL, err := w.request(iss, late)
+			if err != nil {
+				rt.Fail(t, "C20/create", "request for a %d-byte name could not be created: %v", len(late), err)
+				return
+			}
+			if _, _, err := iss.Evaluate(reqL); err != nil {
+				rt.Fail(t, "C20/not-served-late-registration", "request for %q, registered after the issuer had evaluated other requests, is refused: %v", clip(late), err)
+				return
+			}
+			if _, _, err := iss.Evaluate(req); err != nil {
+				rt.Fail(t, "C20/not-served", "request for the first registered name is refused after another origin was added: %v", err)
+				return
+			}
+			s.Class("late-registration")
+		}
 		s.Sample(func() any {
 			return map[string]any{"name": clip(name), "length": n, "second_length": n2, "wire_length": len(req)}
 		})
